@@ -41,6 +41,10 @@ def random_datagrams(rnd, pool_ok, n):
     q = QNAME + [0, 1, 0, 1]
     for i in range(n):
         kind = i % 9
+        if i % 30 == 17:                                  # label length octets 63..191 with that many bytes behind them
+            d, tag = long_label(rnd, q)
+            out.append({"tag": tag, "d": d})
+            continue
         if i % 60 == 59:                                  # a large reply now and then (they are long: keep them few)
             d, tag = large_reply(rnd, q)
             out.append({"tag": tag, "d": d})
@@ -165,6 +169,47 @@ def oversize_replies(rnd, q):
         d, _ = large_reply(rnd, q, total)
         out.append({"tag": "edge-%d" % len(d), "d": d})
     return out
+
+
+def long_label(rnd, q):
+    """A label whose length octet is 63 (longest regular label) or 64..191 (reserved label types, which the code reads as plain
+    lengths), followed by that many bytes, at a random name position (question, owner, CNAME target, behind a pointer)."""
+    L = rnd.choice([63, 64, 65, 66, 80, 100, 126, 127, 128, 129, 160, 190, 191])
+    lab = [L] + [rnd.choice(b"abcdefghijklmnopqrstuvwxyz0123456789-") for _ in range(L)]
+    pre = [rnd.choice([[], [1, 119], [3, 119, 119, 119]])][0]
+    name = pre + lab + rnd.choice([[0], [2, 98, 99, 0], [192, 12], lab + [0]])
+    base = 12 + len(q)
+    a_fix = [0, 1, 0, 1, 0, 0, 0, 7, 0, 4, 10, 9, 8, 7]
+    where = rnd.randrange(5)
+    if where == 0:
+        d = hdr(0x8180, 1, 1) + [x for x in name if True] + [0, 1, 0, 1] + [192, 12] + a_fix
+        if name[-2:] == [192, 12]:                        # no pointer to itself in the question
+            d = hdr(0x8180, 1, 1) + name[:-2] + [0] + [0, 1, 0, 1] + [192, 12] + a_fix
+    elif where == 1:
+        d = hdr(0x8180, 1, 1) + q + name + a_fix
+    elif where == 2:
+        d = hdr(0x8180, 1, 2) + q + rec(ptr(12), 5, name) + ptr(12) + a_fix
+    elif where == 3:                                      # second CNAME = label + pointer into the first one's long name
+        d = hdr(0x8180, 1, 2) + q + rec(ptr(12), 5, name) + rec(ptr(12), 5, [1, 101] + ptr(base + 12 + len(pre)), (0, 0, 2, 88))
+    else:                                                 # long name in skipped TXT rdata, owner of an A record points into it
+        d = hdr(0x8180, 1, 2) + q + rec(ptr(12), 16, name) + ptr(base + 12) + a_fix
+    return d, "long-label-%d" % L
+
+
+def crowd_script(rnd, pools, K, order, n=1):
+    """K lookups outstanding at once on one DnsRequest, then every one of them answered (in issue order / reverse / shuffled):
+    every callback exactly once, the ids of simultaneously live lookups pairwise distinct. Compact trace (no isRunning lists)."""
+    steps = [{"o": "req"} for _ in range(K)]
+    ks = list(range(1, K + 1))
+    if order == "reverse":
+        ks.reverse()
+    elif order == "shuffled":
+        rnd.shuffle(ks)
+    small = [g for g in pools["ok"] if len(g["d"]) <= 60] + [g for g in pools["nxdomain"] if len(g["d"]) <= 40]
+    for k in ks:
+        g = rnd.choice(small)
+        steps.append({"o": "reply", "s": rnd.randrange(1, n + 1), "k": k, "d": g["d"], "tag": "crowd"})
+    return {"n": n, "steps": steps, "end_ticks": 40, "compact": True}
 
 
 def label_cycle(rnd, q):
@@ -329,6 +374,7 @@ def models_(ctx):
     ctx.tlc_mc("Dns", "MC_DnsParse.tla", "MC_DnsParse_asfound_uninit.cfg", expect="NoUninit", coverage=False, env=TLC_ENV)
     ctx.tlc_mc("Dns", "MC_DnsParse.tla", "MC_DnsParse_resetonlabel.cfg", expect="BoundedDepth", coverage=False, env=TLC_ENV)
     ctx.tlc_mc("Dns", "MC_DnsParse.tla", "MC_DnsParse_mask10.cfg", expect="Conforms", coverage=False, env=TLC_ENV)
+    ctx.tlc_mc("Dns", "MC_DnsParse.tla", "MC_DnsParse_labelbuf64.cfg", expect="NoUninit", coverage=False, env=TLC_ENV)
     if not q:
         ctx.tlc_mc("Dns", "MC_DnsParse.tla", "MC_DnsParse_asfound_safe.cfg", expect="Safe", coverage=False, env=TLC_ENV)
         ctx.tlc_mc("Dns", "MC_DnsLookup.tla", "MC_DnsLookup_thorough.cfg", coverage=False, timeout=2400)
@@ -343,7 +389,7 @@ def run(ctx):
                            "terminate/signal handlers, per-step CPU-time watchdog (30 s of CPU = hang -> Fault)"]
     if ctx.replay_path:
         lines = [json.loads(x) for x in open(ctx.replay_path) if x.strip().startswith("{")]
-        scripts = [e["script"] for e in lines if e.get("e") == "New" and "script" in e]
+        scripts = [e.get("script") or e.get("crowd") for e in lines if e.get("e") == "New" and ("script" in e or "crowd" in e)]
         if not scripts:
             models(ctx)
             return
@@ -388,12 +434,20 @@ def run(ctx):
     hist = [random_history(rnd, pools, rnd.randrange(8, 40)) for _ in range(2000 if q else 12000)]
     run_scripts(ctx, exe, hist, "histories", "%d random histories (1-3 servers, duplicates, nested calls)" % len(hist), replayed=False)
 
+    # 2b. crowds: hundreds of lookups outstanding at once (id allocation: live ids distinct, every lookup completes once)
+    crowds = [crowd_script(rnd, pools, 700, "shuffled"), crowd_script(rnd, pools, 1000, "reverse")]
+    if not q:
+        crowds += [crowd_script(rnd, pools, 1500, "issue", n=2), crowd_script(rnd, pools, 1200, "shuffled", n=3),
+                   crowd_script(rnd, pools, 600, "issue"), crowd_script(rnd, pools, 1500, "shuffled")]
+    run_scripts(ctx, exe, crowds, "crowds", "%d crowds of %s simultaneous lookups" % (len(crowds), "/".join(str(len(c["steps"]) // 2) for c in crowds)),
+                replayed=False)
+
     # 3. uninitialised reads: valgrind memcheck on a plain build, the hostile datagrams again (a subset in the quick tier)
     if shutil.which("valgrind"):
         plain = vlib.build("c15_dns", SRC, ["c15_dns/driver.cpp"], flavour="plain", defines=DEFS)
         sub = gens + rd
         if q:
-            sub = [g for g in gens if g["tag"] in ("trunc", "good", "an+2", "qd=2", "ptr-out", "ptr-end", "rdlen+1", "cyc-owner", "cyc-cname", "ptr-label-loop", "large")][::2] + rd[:320]
+            sub = [g for g in gens if g["tag"] in ("trunc", "good", "an+2", "qd=2", "ptr-out", "ptr-end", "rdlen+1", "cyc-owner", "cyc-cname", "ptr-label-loop", "large", "long-cname", "long-via-ptr")][::2] + rd[:320]
         vg = ["valgrind", "-q", "--error-exitcode=97", "--undef-value-errors=yes", "--track-origins=no", "--leak-check=no"]
         run_scripts(ctx, plain, datagram_scripts(rnd, sub) + hist[:20 if q else 300], "memcheck",
                     "valgrind memcheck: %d datagrams + histories" % len(sub), replayed=False, wrapper=vg)
